@@ -129,7 +129,7 @@ pub fn run(ctx: &Ctx) -> ! {
     let mut exhaustive_bits = true;
     for c in CONSUMERS {
         let size = std::fs::metadata(repo_dir().join(c.fixture)).map(|m| m.len()).unwrap_or(0);
-        let content = |t: Option<u64>, f: Option<u64>, a: Option<&str>| FileKind::Content { from: c.fixture.to_string(), truncate: t, flip_bit: f, append: a.map(|s| s.to_string()) };
+        let content = |t: Option<u64>, f: Option<u64>, a: Option<&str>| FileKind::Content { from: c.fixture.to_string(), truncate: t, flip_bit: f, append: a.map(|s| s.to_string()), mtime: None };
         let mut add = |kind: &str, state: Option<FileKind>, mid: Option<FileKind>, name: Option<String>, wrong: bool, rng: &mut Rng, ev: &mut Evidence| {
             n += 1;
             // a fresh file name per world: validate_json_schema caches by path for the life of the process
@@ -147,9 +147,13 @@ pub fn run(ctx: &Ctx) -> ! {
         add("symlink_loop", Some(FileKind::SymlinkLoop), None, None, false, &mut rng, &mut ev);
         add("path_through_file", Some(FileKind::ThroughFile), None, Some(format!("reg-{}/child.dat", c.name.replace(['(', ')'], "_"))), false, &mut rng, &mut ev);
         add("name_too_long", None, None, Some(format!("{}.dat", "n".repeat(300))), false, &mut rng, &mut ev);
+        // unusual file metadata: modification times before the epoch, at the epoch, far in the future
+        for (k, t) in [("mtime_before_epoch", -86_400i64), ("mtime_1901", -2_147_483_648), ("mtime_epoch", 0), ("mtime_year_2262", 9_223_372_036), ("mtime_year_9999", 253_402_300_799)] {
+            add(k, Some(FileKind::Content { from: c.fixture.to_string(), truncate: None, flip_bit: None, append: None, mtime: Some(t) }), None, None, false, &mut rng, &mut ev);
+        }
         add("trailing_garbage", Some(content(None, None, Some("\u{0}\u{1}garbage{{{"))), None, None, false, &mut rng, &mut ev);
-        add("wrong_kind_json", Some(FileKind::Content { from: "tests/data/grok/aliases.json".into(), truncate: None, flip_bit: None, append: None }), None, None, false, &mut rng, &mut ev);
-        add("wrong_kind_descriptor", Some(FileKind::Content { from: "tests/data/protobuf/test/v1/test.desc".into(), truncate: None, flip_bit: None, append: None }), None, None, false, &mut rng, &mut ev);
+        add("wrong_kind_json", Some(FileKind::Content { from: "tests/data/grok/aliases.json".into(), truncate: None, flip_bit: None, append: None, mtime: None }), None, None, false, &mut rng, &mut ev);
+        add("wrong_kind_descriptor", Some(FileKind::Content { from: "tests/data/protobuf/test/v1/test.desc".into(), truncate: None, flip_bit: None, append: None, mtime: None }), None, None, false, &mut rng, &mut ev);
         add("non_utf8", Some(FileKind::Bytes { hex: "fffe7b22613a2022c328227d80".into() }), None, None, false, &mut rng, &mut ev);
         add("json_scalar", Some(FileKind::Bytes { hex: "3432".into() }), None, None, false, &mut rng, &mut ev);
         add("json_deep", Some(FileKind::Bytes { hex: "5b".repeat(300) }), None, None, false, &mut rng, &mut ev);
@@ -190,7 +194,7 @@ pub fn run(ctx: &Ctx) -> ! {
         if !c.text_file {
             for other in ["tests/data/protobuf/test_protobuf/v1/test_protobuf.desc", "tests/data/protobuf/test_protobuf3/v1/test_protobuf3.desc", "tests/data/protobuf/test_protobuf_maps/v1/test_protobuf_maps.desc"] {
                 if other != c.fixture {
-                    add("other_valid_descriptor_set", Some(FileKind::Content { from: other.into(), truncate: None, flip_bit: None, append: None }), None, None, false, &mut rng, &mut ev);
+                    add("other_valid_descriptor_set", Some(FileKind::Content { from: other.into(), truncate: None, flip_bit: None, append: None, mtime: None }), None, None, false, &mut rng, &mut ev);
                 }
             }
         }
@@ -198,7 +202,7 @@ pub fn run(ctx: &Ctx) -> ! {
             add("wrong_message_name", Some(content(None, None, None)), None, None, true, &mut rng, &mut ev);
         }
         // replaced / removed / truncated between compile and run, and between two runs
-        for (k, m) in [("removed_mid_run", FileKind::Absent), ("emptied_mid_run", FileKind::Bytes { hex: String::new() }), ("truncated_mid_run", content(Some(size / 2), None, None)), ("replaced_by_other_kind_mid_run", FileKind::Content { from: "tests/data/grok/aliases.json".into(), truncate: None, flip_bit: None, append: None }), ("became_directory_mid_run", FileKind::Directory)] {
+        for (k, m) in [("removed_mid_run", FileKind::Absent), ("emptied_mid_run", FileKind::Bytes { hex: String::new() }), ("truncated_mid_run", content(Some(size / 2), None, None)), ("replaced_by_other_kind_mid_run", FileKind::Content { from: "tests/data/grok/aliases.json".into(), truncate: None, flip_bit: None, append: None, mtime: None }), ("became_directory_mid_run", FileKind::Directory)] {
             add(k, Some(content(None, None, None)), Some(m), None, false, &mut rng, &mut ev);
             // appears only later
             add(&format!("absent_then_{k}"), Some(FileKind::Absent), Some(content(None, None, None)), None, false, &mut rng, &mut ev);
@@ -227,7 +231,7 @@ pub fn run(ctx: &Ctx) -> ! {
                 for order in 0..4 {
                     k += 1;
                     let fname = format!("v{k}.json");
-                    let good = FileKind::Content { from: fx.to_string(), truncate: None, flip_bit: None, append: None };
+                    let good = FileKind::Content { from: fx.to_string(), truncate: None, flip_bit: None, append: None, mtime: None };
                     let prog = |flag: bool| ProgramSpec { source: format!(".ok, .err = validate_json_schema(string!(.doc), \"@DIR@/{fname}\", {flag})\n.\n"), read_only: vec![], precompile: true, label: format!("F:validate_json_schema(variants,{flag})") };
                     let run = |p: usize| Op::Run { prog: p, event: 0, fresh_runtime: true, faults: FaultPlan::default(), tag: String::new() };
                     let set = |st: &FileKind| Op::SetFile { file: FileState { name: fname.clone(), state: st.clone() } };
